@@ -266,7 +266,35 @@ def rw_R14(text):
     return out, n
 
 
-REWRITES = {'R14': rw_R14, 'R13': rw_R13, 'R12': rw_R12, 'R11': rw_R11, 'R10': rw_R10, 'R9': rw_R9, 'R1': rw_R1, 'R2': rw_R2, 'R3': rw_R3, 'R4': rw_R4, 'R5': rw_R5, 'R8': rw_R8}
+def rw_R15(text):
+    """E.bytes().filter(|&b| COND).count()  ->  { let __b = (E).as_bytes(); let mut __c: usize = 0; let mut __i: usize = 0; while __i < __b.len() { let b = __b[__i]; if COND { __c += 1; } __i += 1; } __c }"""
+    n = 0
+    out = text
+    pos = 0
+    pat = re.compile(r'\b(\w+)\s*\.\s*bytes\(\)\s*\.\s*filter\(\s*\|\s*&(\w+)\s*\|')
+    while True:
+        msk = rsx.mask(out)
+        m = pat.search(msk, pos)
+        if not m:
+            break
+        po = msk.index('(', msk.index('filter', m.start()))
+        pc = rsx.match_close(msk, po)
+        cond = out[m.end():pc].strip()
+        tail = re.compile(r'\s*\.\s*count\(\)').match(msk, pc + 1)
+        if not tail:
+            pos = m.end()
+            continue
+        new = '{ let __b = %s.as_bytes(); let mut __c: usize = 0; let mut __i: usize = 0; while __i < __b.len() { let %s = __b[__i]; if %s { __c += 1; } __i += 1; } __c }' % (
+            m.group(1), m.group(2), cond)
+        old = out[m.start():tail.end()]
+        lost = old.count('\n') - new.count('\n')
+        out = out[:m.start()] + new + ('\n' * max(0, lost)) + out[tail.end():]
+        pos = m.start() + len(new)
+        n += 1
+    return out, n
+
+
+REWRITES = {'R15': rw_R15, 'R14': rw_R14, 'R13': rw_R13, 'R12': rw_R12, 'R11': rw_R11, 'R10': rw_R10, 'R9': rw_R9, 'R1': rw_R1, 'R2': rw_R2, 'R3': rw_R3, 'R4': rw_R4, 'R5': rw_R5, 'R8': rw_R8}
 REWRITE_DOC = {
     'R1': 'for &T{f,..} in &E[a..b]  ->  for __i in a..b { let f = E[__i].f; (Verus: no ref patterns)',
     'R2': 'Some(&b) => b  ->  Some(b) => *b (Verus: no ref patterns)',
@@ -282,6 +310,7 @@ REWRITE_DOC = {
     'R12': 'f(.., |a, b| EXPR) -> f(.., |a, b| { EXPR }) (block body, so that a closure contract can be attached to the header)',
     'R13': 'E.iter()[.rev()].take_while(|c| COND).count() -> a counting while-loop over the same elements from the front [back] (Verus: no iterator adapters)',
     'R14': 'E.iter().all(|e| COND) -> a while-loop over the same elements that stops at the first one failing COND (Verus: no iterator adapters)',
+    'R15': 'E.bytes().filter(|&b| COND).count() -> a counting while-loop over E.as_bytes() (Verus: no iterator adapters)',
     'ARMSUB': 'a named match arm (delegation to regex-automata) is replaced by a call to an assumed shim; the dropped text is listed in dropped_code',
 }
 
